@@ -308,6 +308,7 @@ def run_property(pid: str, tier: str, seed: int) -> int:
     # known findings
     kf = [k for k in _known_findings() if k.get("property") == pid]
     known_lines = []
+    known_obligations = []
     violations = []
     os.makedirs(os.path.join(VERIF, "replay"), exist_ok=True)
     for old in os.listdir(os.path.join(VERIF, "replay")):
@@ -351,7 +352,10 @@ def run_property(pid: str, tier: str, seed: int) -> int:
                         replay["replay_error"] = repr(e) + "\n" + traceback.format_exc()
         k = match_known(name, witness_text)
         if k is not None:
-            known_lines.append(f"KNOWN-FINDING: property={pid} {k['text']}")
+            line = f"KNOWN-FINDING: property={pid} {k['text']}"
+            if line not in known_lines:
+                known_lines.append(line)
+            known_obligations.append(dict(obligation=name, finding=k.get("id", ""), reproduced=reproduced))
             continue
         violations.append((name, verdict, replay, reproduced))
     for name, f in bounded_failures:
@@ -367,7 +371,8 @@ def run_property(pid: str, tier: str, seed: int) -> int:
                                 tier=tier), True))
     # evidence
     wall = time.time() - t_start
-    n_ob = len(all_obs) + struct_total
+    # obligations that fail because of a listed known finding are reported separately, not as discharged
+    n_ob = len(all_obs) + struct_total - len([k for k in known_obligations if not k["obligation"].startswith(f"{pid}/bounded/")])
     n_dis = discharged + struct_ok
     ev = dict(
         property_id=pid, tier=tier, seed=seed, level="proof",
@@ -392,6 +397,7 @@ def run_property(pid: str, tier: str, seed: int) -> int:
             samples=[dict(obligation=o.name, verdict=o.result.verdict, solver=o.result.solver,
                           smt_bytes=len(o.smt())) for o in all_obs[:3]] + struct_samples[:3],
             known_findings=[k["text"] for k in kf if k.get("status") == "known"],
+            known_finding_obligations=known_obligations,
             failed=[dict(obligation=n, verdict=v) for n, v, _, _ in violations],
         ),
         assumptions=info.get("assumptions", []) + [
